@@ -620,7 +620,7 @@ func init() {
 	vfXModels["c19s"] = &vfXModel{Name: "c19s", NumOps: len(vfTagOps), OpName: func(i int) string { return vfTagOps[i].Name },
 		Exec: vfTagExec, MaxDepth: func(th bool) int {
 			if th {
-				return 5
+				return 7
 			}
 			return 4
 		}}
